@@ -20,7 +20,7 @@ ASSUMPTIONS = ['flows symbolic > 0 on a presence pattern, T in (250, 500), P in 
                'the receiver may be one of the inlets (group mix-into-one-of-the-inlets)']
 OUTSIDE = ['convergence and accuracy of the real Aitken/secant temperature solve for real Cn(T) data', '"assigning the value it already has leaves T unchanged" (a statement about the real solver)',
            'vle=True mixing']
-BOUNDS = {'quick': dict(chemicals=2, inlets='<=2', kinds='Stream l/g, MultiStream lg'), 'thorough': dict(chemicals=2, inlets='<=3')}
+BOUNDS = {'quick': dict(chemicals=2, inlets='<=2', kinds='Stream l/g, MultiStream lg'), 'thorough': dict(chemicals=2, inlets='<=3 single-phase inlets; MultiStream inlets <=2')}
 N = 2
 _fx = {}
 
@@ -161,12 +161,12 @@ def groups(tier):
     q = tier == 'quick'
     kinds = ['l', 'g', 'ms:lg']
     g = {
-        'mix-energy-balance': (g_mix(['l', 'g'] if q else kinds, 2 if q else 3), dict(max_paths=1000000, qtimeout_ms=20000, stubs_required=('solve_T',))),
+        'mix-energy-balance': (g_mix(['l', 'g'], 2 if q else 3), dict(max_paths=1000000, qtimeout_ms=20000, stubs_required=('solve_T',))),
         'separate-energy-balance': (g_separate(['l'] if q else kinds), dict(max_paths=400000, qtimeout_ms=20000)),
         'H-S-setters': (g_setters(kinds), dict(qtimeout_ms=20000, stubs_required=('solve_T',))),
     }
     # the receiver is itself one of the inlets: s.mix_from([s, other]) (first example of the docstring, and `s += other`)
-    g['mix-into-one-of-the-inlets'] = (g_mix(['l', 'g'] if q else kinds, 1 if q else 2, self_mix=True), dict(max_paths=1000000, qtimeout_ms=20000))
+    g['mix-into-one-of-the-inlets'] = (g_mix(['l', 'g'], 1 if q else 2, self_mix=True), dict(max_paths=1000000, qtimeout_ms=20000))
     if not q:
         g['mix-with-multistream-inlets'] = (g_mix(['ms:lg', 'l'], 2), dict(max_paths=1000000, qtimeout_ms=20000))
     return g
